@@ -172,6 +172,47 @@ pub fn generate(thorough: bool) -> Vec<Dup> {
         }
     }
 
+    // ---- 2d. quotation marks do not protect commas: the header is split at every comma, so an occurrence that sits
+    //          between a field opening a quoted value and a later field closing it is an occurrence like any other
+    for key in ["Credential", "SignedHeaders", "Signature"] {
+        for valid_last in [true, false] {
+            for (qname, open, close) in [("comment", "Comment=\"x", "End=y\""), ("realm", "realm=\"a", "x=b\""), ("bare-quotes", "q=\"", "r=\""), ("nested", "A=\"1", "B=\"2\"")] {
+                for sep in [", ", ","] {
+                    let mut plan = e2e::base_plan(Carrier::Header);
+                    plan.headers.push(("X-Extra".into(), b"e".to_vec()));
+                    plan.signed.push("x-extra".into());
+                    let built = build(&plan);
+                    let mut w = WireReq::from_wire(&built.wire);
+                    let (c, sh, s) = auth_fields(&w);
+                    let (valid_val, decoy) = match key {
+                        "Credential" => (c.clone(), c.replace("AKIDEXAMPLE", "AKIDOTHER")),
+                        "SignedHeaders" => (sh.clone(), "host;x-amz-date".to_string()),
+                        _ => (s.clone(), "0".repeat(64)),
+                    };
+                    let mut parts: Vec<String> = Vec::new();
+                    for x in ["Credential", "SignedHeaders", "Signature"] {
+                        if x != key {
+                            parts.push(format!("{}={}", x, match x { "Credential" => c.clone(), "SignedHeaders" => sh.clone(), _ => s.clone() }));
+                        }
+                    }
+                    parts.push(format!("{}={}", key, if valid_last { &decoy } else { &valid_val }));
+                    parts.push(open.to_string());
+                    parts.push(format!("{}={}", key, if valid_last { &valid_val } else { &decoy }));
+                    parts.push(close.to_string());
+                    set_header(&mut w, "authorization", format!("AWS4-HMAC-SHA256 {}", parts.join(sep)).into_bytes());
+                    out.push(Dup {
+                        label: format!("{} twice, the second between quoted fields ({}), valid {} sep={:?}", key, qname, if valid_last { "last" } else { "first" }, sep),
+                        wire: w,
+                        cfg: cfg.clone(),
+                        expect_ok: valid_last,
+                        expect_ask: Some((e2e::ACCESS_KEY.into(), None)),
+                        expect_both_carriers: false,
+                    });
+                }
+            }
+        }
+    }
+
     // ---- 2c. the same rule however many fields the header has: unknown fields before the parameters and between
     //          the two occurrences (field counts across small fixed capacities: 8, 16, 32, 64, 256)
     for key in ["Credential", "SignedHeaders", "Signature"] {
@@ -933,7 +974,7 @@ pub fn run(ctx: &Ctx) -> Report {
     });
     Report {
         stats: st,
-        rule: "for each duplicable input — Authorization header (4 decoy kinds, with/without interleaved headers); Credential / SignedHeaders / Signature inside it (2 separators), the same with 0..9 unknown fields in front and 0..300 unknown fields between the two occurrences (field counts across 8, 16, 32, 64, 256), and differently-cased look-alikes of those names before/after the real ones (24 runs each); X-Amz-Date header (signed or not); X-Amz-Date vs Date in both orders; X-Amz-Security-Token header (also with a first token of 4 .. 64 KiB); every case with a repeated Authorization / date header again with the first occurrence padded by 8193 / 70000 bytes that do not change its meaning; query X-Amz-Algorithm / -Credential / -Date / -SignedHeaders / -Security-Token (adjacent or spread) and X-Amz-Signature, also with either occurrence's name spelled with escaped hyphens, and twice among 10 .. 1000 (thorough: every count 0 .. 300, and up to 2000) other parameters in four layouts (authentication parameters first / last, the two occurrences at the two ends, adjacent in the middle; other names sorting before or after X-Amz-*) — 2 or 3 occurrences with differing values and the single valid value at every position; the request is signed as received (all values in the canonical form) with the valid occurrence's data, so it validates iff the documented rule selects that occurrence; each X-Amz-* parameter once in the URL and once in a folded form body (valid one in either place, body with fewer or more names than the URL); inputs of the carrier that is NOT in use present as decoys (X-Amz-* query parameters next to an Authorization header; date / token / credential headers next to query authentication); plus Authorization together with X-Amz-Algorithm (3 values) in the URL, in a folded body and as a complete second authentication; thorough adds all pairs of duplicated date x token. Oracle: generator's expectation (independent of the reference verifier, and cross-checked against it), error kind and provider identity. states = (stage, identity seen by provider)".into(),
+        rule: "for each duplicable input — Authorization header (4 decoy kinds, with/without interleaved headers); Credential / SignedHeaders / Signature inside it (2 separators), the same with 0..9 unknown fields in front and 0..300 unknown fields between the two occurrences (field counts across 8, 16, 32, 64, 256), and differently-cased look-alikes of those names before/after the real ones (24 runs each), and with the last occurrence sitting between a field that opens a quoted value and a later one that closes it (4 quoting patterns: quotation marks do not protect commas); X-Amz-Date header (signed or not); X-Amz-Date vs Date in both orders; X-Amz-Security-Token header (also with a first token of 4 .. 64 KiB); every case with a repeated Authorization / date header again with the first occurrence padded by 8193 / 70000 bytes that do not change its meaning; query X-Amz-Algorithm / -Credential / -Date / -SignedHeaders / -Security-Token (adjacent or spread) and X-Amz-Signature, also with either occurrence's name spelled with escaped hyphens, and twice among 10 .. 1000 (thorough: every count 0 .. 300, and up to 2000) other parameters in four layouts (authentication parameters first / last, the two occurrences at the two ends, adjacent in the middle; other names sorting before or after X-Amz-*) — 2 or 3 occurrences with differing values and the single valid value at every position; the request is signed as received (all values in the canonical form) with the valid occurrence's data, so it validates iff the documented rule selects that occurrence; each X-Amz-* parameter once in the URL and once in a folded form body (valid one in either place, body with fewer or more names than the URL); inputs of the carrier that is NOT in use present as decoys (X-Amz-* query parameters next to an Authorization header; date / token / credential headers next to query authentication); plus Authorization together with X-Amz-Algorithm (3 values) in the URL, in a folded body and as a complete second authentication; thorough adds all pairs of duplicated date x token. Oracle: generator's expectation (independent of the reference verifier, and cross-checked against it), error kind and provider identity. states = (stage, identity seen by provider)".into(),
         bounds: json!({"cases": n, "occurrences": [2, 3]}),
         exhaustive: true,
         assumptions: vec![],
